@@ -321,6 +321,21 @@ func c01Options(c *Ctx) {
 				c.R.Check(lit == nil, "R-C01-3", c.fname(f)+":no-address", c.fname(f), c.pos(p.Ret.Pos()), fmt.Sprintf("option built without an address: %v", lit != nil), "no option when the interface has no hardware address", "a source link-layer option without an address is advertised")
 				continue
 			}
+			if lit == nil {
+				// an address that cannot be encoded (not 6 bytes): the option is left out (see R-C03-4)
+				unencodable := false
+				for _, a := range p.Atoms {
+					x, y, op, ok := effCmp(a)
+					if ok && op == token.NEQ && x.Op == an.OpLen && x.Args[0].IsField("Addr") {
+						if k, isC := y.ConstInt(); isC && k == 6 {
+							unencodable = true
+						}
+					}
+				}
+				c.R.Check(unencodable, "R-C01-3", c.fname(f)+":address-without-option", c.fname(f), c.pos(p.Ret.Pos()), fmt.Sprintf("no option although an address is set; len(Addr) != 6 established: %v", unencodable),
+					"the option is omitted only for an address that is absent or not 6 bytes long", "source link-layer address option missing although the interface has an Ethernet address")
+				continue
+			}
 			flds := raHeader(lit)
 			ok := flds != nil && flds["Addr"] != nil && isRecvField(flds["Addr"], "Addr") && flds["Direction"] != nil
 			if ok {
@@ -375,17 +390,68 @@ func c01Options(c *Ctx) {
 			}
 		}
 	}
+	dnsslNames(c, "R-C01-3")
+}
+
+// dnsslNames: shared by C01 (the search list is the configured one) and C12
+// (our own RA compares equal to itself after a wire round trip).
+func dnsslNames(c *Ctx, rule string) {
 	if f := c.P.Func("internal/config", "parseDNSSL"); f != nil {
+		// the advertised search list is the configured one, name by name and in order, each name in the
+		// form it has after a wire round trip (trailing dot removed, IDNA labels in Unicode: see R-C12-5)
+		wireForm := func(e *an.Expr) bool {
+			b, idx := stripExtract(e)
+			if idx != 0 || b.Op != an.OpCall || b.Fn == nil || b.Fn.String() != "golang.org/x/net/idna.ToUnicode" || len(b.Args) != 1 {
+				return false
+			}
+			t := b.Args[0]
+			if t.Op != an.OpCall || t.Fn == nil || t.Fn.String() != "strings.TrimSuffix" || len(t.Args) != 2 || !t.Args[1].IsConst(`"."`) {
+				return false
+			}
+			el := t.Args[0]
+			return el.Op == an.OpElem && len(el.Args) == 2 && el.Args[0].IsField("DomainNames") && el.Args[0].Args[0].Op == an.OpParam && el.Args[1].Contains(func(x *an.Expr) bool { return x.Op == an.OpLoop })
+		}
+		nApp, okApp := 0, true
+		fact := ""
+		for _, p := range c.pathsO(rule, f, an.PathOpts{EmitCut: true}) {
+			p.Instrs(func(in ssa.Instruction) {
+				call, ok := in.(*ssa.Call)
+				if !ok {
+					return
+				}
+				if b, isB := call.Call.Value.(*ssa.Builtin); !isB || b.Name() != "append" {
+					return
+				}
+				if sl, isS := call.Type().Underlying().(*types.Slice); !isS || typeStr(sl.Elem()) != "string" {
+					return
+				}
+				e := p.Of(call)
+				if e.Op != an.OpAppend || len(e.Args) != 2 || e.Args[1].Op != an.OpStruct || len(e.Args[1].Args) != 1 {
+					return
+				}
+				nApp++
+				if !wireForm(e.Args[1].Args[0]) {
+					okApp = false
+					fact = "appends " + e.Args[1].Args[0].String()
+				}
+			})
+		}
 		pd := c.P.Func("internal/config", "parseDuration")
 		done := false
-		for _, p := range successPaths(c, "R-C01-3", f, map[*ssa.Function]bool{pd: true}) {
+		for _, p := range successPaths(c, rule, f, map[*ssa.Function]bool{pd: true}) {
 			if done {
 				break
 			}
 			if flds := raHeader(p.Results[0]); flds != nil {
 				done = true
 				v := flds["DomainNames"]
-				c.R.Check(v != nil && v.IsField("DomainNames") && v.Args[0].Op == an.OpParam, "R-C01-3", c.fname(f)+":domain-names", c.fname(f), c.pos(p.Ret.Pos()), fmt.Sprintf("DomainNames ⇐ %v", v), "raw.DomainNames", "search list altered")
+				verbatim := v != nil && v.IsField("DomainNames") && v.Args[0].Op == an.OpParam
+				built := v != nil && nApp >= 1 && okApp && !verbatim
+				if fact == "" {
+					fact = fmt.Sprintf("DomainNames ⇐ %v (%d append site(s) of wire-form names)", v, nApp)
+				}
+				c.R.Check(built, rule, c.fname(f)+":domain-names", c.fname(f), c.pos(p.Ret.Pos()), fact,
+					"every configured name, in order, as idna.ToUnicode(strings.TrimSuffix(name, \".\"))", "search list altered, or names kept in a form that changes on the wire")
 			}
 		}
 	}
